@@ -1,8 +1,6 @@
-import ast
-
 from outsourcer import Code
 
-from .base import Expression
+from .base import Expression, python_names
 from .constants import RESULT, STATUS
 
 
@@ -13,18 +11,12 @@ class PythonExpression(Expression):
 
     def __init__(self, source_code):
         self.source_code = source_code
-        self.local_names = ()
 
     def __str__(self):
         return f'`{self.source_code}`'
 
-    def names(self):
-        # The identifiers that the Python expression mentions.
-        try:
-            tree = ast.parse(self.source_code.strip(), mode='eval')
-        except SyntaxError:
-            return set()
-        return {x.id for x in ast.walk(tree) if isinstance(x, ast.Name)}
+    def mentioned_names(self):
+        return python_names(self.source_code)
 
     def always_succeeds(self):
         return True
